@@ -269,7 +269,7 @@ fn gen_attrs(ch: &mut Ch, thorough: bool) -> Option<Case> {
 
 /// Debug / Default attribute flavours
 fn gen_misc(ch: &mut Ch, _thorough: bool) -> Option<Case> {
-    let cases: [(&[&str], &str); 37] = [
+    let cases: [(&[&str], &str); 39] = [
         (&["Debug"], "pub struct X<T>(#[debug(ignore)] pub T, pub Option<T>);"),
         (&["Debug"], "pub struct X<T> { #[debug(transparent)] pub a: Vec<T>, pub b: u8 }"),
         (&["Debug"], "pub enum X<'a, T> { A(#[debug(ignore)] &'a T), B { #[debug(transparent)] x: T }, C }"),
@@ -307,6 +307,10 @@ fn gen_misc(ch: &mut Ch, _thorough: bool) -> Option<Case> {
         (&["Eq", "PartialEq", "Hash"], "pub struct X(#[eq(key = ::core::mem::size_of::<Self>() as u64 + $.to_bits())] pub f64, pub u8);"),
         (&["Ord", "PartialOrd", "Eq", "PartialEq", "Hash"], "pub struct X<T>(#[ord(key = (::core::mem::size_of::<Self>(), $.len()))] pub Vec<T>, pub u8);"),
         (&["Eq", "PartialEq"], "pub enum X<T> { A(#[eq(key = ::core::mem::size_of::<Option<Self>>() + $.len())] Vec<T>), B }"),
+        // `$` as a whole function argument / block tail / parenthesized operand of a key: the substituted `(self.f)`
+        // must not draw `unused_parens` in the user's crate, in any generated item (the hidden Eq assertion included)
+        (&["Eq", "PartialEq", "Hash"], "pub struct X(#[eq(key = norm($))] pub u8, #[eq(key = { $ })] pub u8, #[eq(key = ($))] pub u8); /*extra*/ pub fn norm(x: u8) -> u8 { x }"),
+        (&["Ord", "PartialOrd", "Eq", "PartialEq"], "pub enum X { A(#[ord(key = norm($))] u8, #[ord(key = { $ })] u8), B } /*extra*/ pub fn norm(x: u8) -> u8 { x }"),
         // type-level default values on generic types: a path (through Into) and a string literal (through a user From<&str>)
         (&["Default"], "#[default(Self::MK)] pub struct X<T>(pub Option<T>); /*extra*/ impl<T> X<T> { pub const MK: Self = X(None); }"),
         (&["Default", "Clone"], "#[default(\"lit\")] pub struct X<T> { pub a: Vec<T> } /*extra*/ impl<T> ::core::convert::From<&str> for X<T> { fn from(_: &str) -> Self { X { a: Vec::new() } } }"),
